@@ -849,6 +849,14 @@ def run(ctx):
     # framing alone: random frame streams through the real _read_frame vs parseAll
     framing(ctx)
 
+    # observation for C08 (not judged here): end of stream while a read without caller timeout is blocked
+    plan = {"cfg": cfg(1000, 0), "pos": "probe", "labels": [], "steps": [["R", None], ["A", 5], ["E"], ["A", 100000]]}
+    rep = run_impl(plan)
+    ctx.notes["eof_while_read_blocked_without_caller_timeout"] = (
+        rep[-1] if rep and rep[-1].startswith("c=") else str(rep[-1:]))
+    ctx.notes["eof_note"] = ("after end-of-stream the reader task ends, `_closed` stays False and a read() without caller timeout "
+                             "stays pending (cl=read above, 100 s later); with a caller timeout it ends in TimeoutError - see C08")
+
 
 def framing(ctx):
     """the real HSFZConnection._read_frame over random streams (large frames, all control words) vs the model's parser"""
